@@ -1665,6 +1665,62 @@ Section Accepted.
   Qed.
 End Accepted.
 
+(* ---- the dispatcher cannot get stuck -------------------------------------------------------------- *)
+
+Definition dispatch_action (a : action) : bool :=
+  match a with
+  | ADeliver _ | ASnap _ _ | ASignal _ _ | AStart _ _ | AEnd _ _ _ | ABarrier _ _ => true
+  | _ => false
+  end.
+
+Section Progress.
+  Variable sc : scenario.
+  Hypothesis Hwf : wf_sc sc.
+
+  (* In every reachable state that has not crashed, either every event that has arrived is
+     completely dispatched, or one of the dispatcher's own steps is enabled: take the next
+     event, snapshot the next phase, let a spawned wrapper signal / enter its handler, let a
+     running foreground handler return, pass the barrier.  No step of a registrar, no new
+     arrival is needed — nothing a handler did earlier (a panic that was recovered
+     included) can block the delivery of later events. *)
+  Theorem dispatcher_progress tr s :
+    exec sc (init sc) tr = Some s -> s_crashed s = false ->
+    s_disp s = DIdle (s_arrived s) \/
+    exists a s', step sc s a = Some s' /\ dispatch_action a = true.
+  Proof.
+    intros Hrun Hnc. destruct (inv_run sc Hwf tr s Hrun) as [HA HB].
+    pose proof (arrived_inv sc tr s Hrun) as Harr.
+    destruct (s_disp s) as [n|n k|n k out] eqn:Ed.
+    - simpl in Harr. destruct (Nat.eq_dec n (s_arrived s)) as [->|Hne]; [left; reflexivity|].
+      right. exists (ADeliver n). unfold step. rewrite Hnc, Ed, Nat.eqb_refl.
+      assert (Nat.ltb n (s_arrived s) = true) as -> by (apply Nat.ltb_lt; lia).
+      simpl. eexists. split; reflexivity.
+    - right. exists (ASnap n k). unfold step. rewrite Hnc, Ed, !Nat.eqb_refl. simpl.
+      eexists. split; reflexivity.
+    - right. destruct out as [|h out].
+      + exists (ABarrier n k). unfold step. rewrite Hnc, Ed, !Nat.eqb_refl. simpl.
+        eexists. split; reflexivity.
+      + pose proof (b_out _ _ _ HB n k (h :: out) Ed h (or_introl eq_refl)) as Hkind.
+        assert (outc s n h = S (count_occ N.eq_dec out h)) as Hout.
+        { unfold outc. rewrite Ed, Nat.eqb_refl. simpl. destruct (N.eq_dec h h); congruence. }
+        assert (mem_N h (h :: out) = true) as Hmem by (simpl; rewrite N.eqb_refl; reflexivity).
+        destruct (bg_phase k) eqn:Ebg.
+        * (* background phase: the wrapper of h has not signalled yet *)
+          pose proof (b_bg _ _ _ HB n h Hkind) as Hsp. rewrite Hout in Hsp.
+          exists (ASignal n h). unfold step. rewrite Hnc, Ed, Nat.eqb_refl, Ebg, Hmem.
+          assert (Nat.ltb 0 (s_sp s n h) = true) as -> by (apply Nat.ltb_lt; lia).
+          simpl. eexists. split; reflexivity.
+        * (* foreground phase: the wrapper of h is about to run h, or h is running *)
+          destruct (b_fg _ _ _ HB n h Hkind) as [Hsum _]. rewrite Hout in Hsum.
+          destruct (s_sp s n h) as [|p] eqn:Esp.
+          -- exists (AEnd n h (ORet false)). unfold step. rewrite Hnc.
+             assert (Nat.ltb 0 (s_rn s n h) = true) as -> by (apply Nat.ltb_lt; lia).
+             rewrite Hkind, Ed, Nat.eqb_refl, Hmem. simpl. eexists. split; reflexivity.
+          -- exists (AStart n h). unfold step. rewrite Hnc, Hkind, Ed, Nat.eqb_refl, Ebg, Hmem, Esp.
+             simpl. eexists. split; reflexivity.
+  Qed.
+End Progress.
+
 (* ---- the hypotheses are satisfiable: a well-formed scenario and an accepted run of it ----------- *)
 
 Definition ex_sc : scenario :=
